@@ -260,9 +260,13 @@ impl Expr {
                             }
                             Cow::Owned(index.for_type(flags)?)
                         }
-                        lookup @ Expr::DotLookup { expected_type, .. } => {
+                        lookup @ Expr::DotLookup { expected_type, lhs: lookup_lhs, .. } => {
                             if let Some(root) = lookup.root_ident().filter(|root| root.is_const()) {
                                 bail!("cannot use {op} on a member of {}, which is const", root.name())
+                            }
+                            // ... and the members of a module are const through any name (`m = lib`)
+                            if let TypeLayout::Module(..) = lookup_lhs.for_type(flags)?.disregard_distractors(false) {
+                                bail!("cannot use {op} on a member of a module")
                             }
                             Cow::Borrowed(expected_type)
                         }
